@@ -102,8 +102,8 @@ class Actor:
                     self.obj.write(copy.deepcopy(x) if isinstance(x, dict) else x)
                     self.obs.append(("write", self.i, bsum(self.f.getvalue())))
                 except Exception as ex:
-                    self.obs.append(("write", self.i, "raised", type(ex).__name__, str(ex)[:80]))
-                    self.done = True
+                    # the application catches the error of one bad item and carries on with the next
+                    self.obs.append(("write", self.i, "raised", type(ex).__name__, bsum(self.f.getvalue())))
                 self.i += 1
             else:
                 try:
@@ -315,3 +315,47 @@ def count_steps(scn):
     ls = LineSched(actors, {"start": 0}, count_only=True)
     ls.run()
     return ls.per_actor_steps
+
+
+# ---------------------------------------------------------------------------------------------
+# pristine executions: every solo actor and every interleaved run starts from a forked copy of a
+# process that has not executed any code under test, so state left behind by one instance (class /
+# module level) can neither pollute the baseline nor hide in it
+# ---------------------------------------------------------------------------------------------
+
+class ActorResult:
+    def __init__(self, a):
+        self.spec = a.spec
+        self.obs = a.obs
+        self.values = a.values
+        self._final = a.final()
+
+    def final(self):
+        return self._final
+
+
+def _solo_one(scn, i):
+    a = build_actors(dict(scn, share_config=False))[i]
+    a.run_all()
+    return ActorResult(a)
+
+
+def _inter(scn):
+    if scn["mode"] == "op":
+        actors, stats = run_op_level(scn)
+    else:
+        actors, stats = run_line_level(scn)
+    return [ActorResult(a) for a in actors], stats
+
+
+def run_pristine(scn):
+    """-> (solo results, interleaved results, stats); raises SoloWriterFailed"""
+    from .forkrun import in_fork, ForkError
+    try:
+        solo = [in_fork(_solo_one, scn, i) for i in range(len(scn["actors"]))]
+        inter, stats = in_fork(_inter, scn)
+    except ForkError as e:
+        if e.args and e.args[0] == "SoloWriterFailed":
+            raise SoloWriterFailed(*e.args[1])
+        raise
+    return solo, inter, stats
